@@ -330,6 +330,95 @@ def wire(R, ctx):
             R.ob(rid, "%s|only-RetainLines-preserves" % fname, True, ctx.where(fn), "informational", nontrivial=False)
 
 
+STMT = "nodes::statements::Statement"
+BLOCK_ENDED = ["Do", "Function", "GenericFor", "If", "LocalFunction", "NumericFor", "While", "TypeFunction"]
+
+
+def exact_separator(R, ctx):
+    rid = "C03.exact-semi"
+    lib = ctx.lib
+    from .. import tables
+    R.rule(rid, "the token-based generator writes a `;` that is not in the source only when generator::utils::ends_with_prefix(current) holds; for the "
+                "identity this predicate must not over-approximate: statements closed by `end` answer the constant false, a declaration/assignment "
+                "without a last value answers false, and `true` is answered directly only for call statements")
+    fn = lib.fn("generator::utils::ends_with_prefix")
+    if not R.require(rid, "anchor", fn is not None, "", "not found"):
+        return
+    ms = tables.matches_on(lib, thir.body_of(fn), STMT)
+    if not R.require(rid, "anchor:match", len(ms) >= 1, ctx.where(fn), "no match over Statement"):
+        return
+    tbl = tables.variant_table(lib, ms[0], STMT)
+    for v in BLOCK_ENDED:
+        rows = tbl.get(v, [])
+        R.ob(rid, "ends_with_prefix|%s" % v, bool(rows) and rows[0][0] == "false", ctx.where(fn), "Statement::%s -> %s (must be false: it ends with a keyword)" % (v, rows[0][0] if rows else "missing"))
+    for v, rows in sorted(tbl.items()):
+        cls, g, arm = rows[0]
+        if cls == "true":
+            R.ob(rid, "ends_with_prefix|true-only-for-call|%s" % v, v == "Call", ctx.where(fn), "Statement::%s answers true unconditionally" % v)
+        if cls == "expr":
+            lits = [x.get("v") for x in _tail_literals(arm["body"])]
+            R.ob(rid, "ends_with_prefix|%s|no-value-is-false" % v, "true" not in lits, ctx.where(fn, arm.get("l")),
+                 "Statement::%s: fallback results %s (a statement without trailing expression must answer false, otherwise a `;` is invented)" % (v, lits))
+
+
+def _tail_literals(e):
+    out = []
+    k = e.get("k")
+    if k == "Block":
+        if "tail" in e:
+            out += _tail_literals(e["tail"])
+    elif k == "If":
+        out += _tail_literals(e["then"])
+        if "else" in e:
+            out += _tail_literals(e["else"])
+    elif k == "Match":
+        for a in e["arms"]:
+            out += _tail_literals(a["body"])
+    elif k == "Lit" and e.get("v") in ("true", "false"):
+        out.append(e)
+    elif k == "Call" and e.get("fname") in ("unwrap_or", "map_or", "is_some_and"):
+        for a in e["args"][1:2]:
+            out += _tail_literals(a)
+    return out
+
+
+def no_spurious_space(R, ctx):
+    rid = "C03.nospace"
+    lib = ctx.lib
+    from . import c02
+    R.rule(rid, "write_token_options inserts a space between two replayed tokens when should_break_with_space(last, next) holds; tokens that were "
+                "adjacent in the source never fuse, so for the identity this table must answer false for every character pair Lua's lexer does not "
+                "fuse (exactness direction of C02.fuse, decided on the same extracted table)")
+    fn = lib.fn("generator::utils::should_break_with_space")
+    if not R.require(rid, "anchor", fn is not None, "", "not found"):
+        return
+    params = []
+    for p in fn["thir"]["params"]:
+        if "pat" in p:
+            for var, name, pre, ty in thir.pat_bindings(p["pat"]):
+                params.append(var)
+    chars = [chr(c) for c in range(33, 127)]
+    spurious = {}
+    n = 0
+    try:
+        for a in chars:
+            for b in chars:
+                if c02.lua_fuses(a, b):
+                    continue
+                n += 1
+                if c02.eval_char_fn(thir.body_of(fn), params, a, b):
+                    cls = ("digit" if a.isdigit() else "letter" if a.isalpha() else a, "digit" if b.isdigit() else "letter" if b.isalpha() else b)
+                    spurious.setdefault(cls, []).append(a + b)
+    except ValueError as e:
+        R.ob(rid, "table-extractable", False, ctx.where(fn), "decision table could not be extracted (%s)" % e)
+        return
+    R.require(rid, "floor:pairs", n >= 4000, ctx.where(fn), "%d non-fusing pairs checked" % n)
+    R.ob(rid, "non-fusing-pairs-checked", True, ctx.where(fn), "%d pairs" % n)
+    for cls, ex in sorted(spurious.items()):
+        R.ob(rid, "spurious-space|%s|%s" % cls, False, ctx.where(fn),
+             "`%s` directly followed by `%s` (e.g. source text `%s`) is separated although the lexer never fuses them: retain_lines inserts a space that is not in the source" % (cls[0], cls[1], ex[0]))
+
+
 def run(R, ctx):
     R.explanation = (
         "Static capture/store/replay coverage: full_moon's token accessors (from crate metadata) vs. calls in the converter, "
@@ -345,3 +434,5 @@ def run(R, ctx):
     dispatch(R, ctx)
     order(R, ctx)
     wire(R, ctx)
+    exact_separator(R, ctx)
+    no_spurious_space(R, ctx)
